@@ -77,10 +77,23 @@ def deep(o):
     return o + '/'
 
 
+def _unlocal(v):
+    """Allocation-site origins are function-local: seen from outside they are fresh objects."""
+    def m(os_):
+        return {FRESH if o.startswith('L:') else o for o in os_}
+    items = None
+    if v.items is not None:
+        items = tuple(_unlocal(x) for x in v.items)
+    return AVal(m(v.o), v.kind, m(v.c) - {FRESH}, v.ek, items)
+
+
 def elems(v):
     """Abstract value of an element / attribute / view of v."""
-    if v.kind in ('index', 'scalar'):
-        return AVal([FRESH], v.kind)
+    if v.kind == 'scalar':
+        return AVal([FRESH], 'scalar')
+    if v.kind == 'index':
+        # boolean / integer index arrays are arrays too: basic slices of them are views
+        return AVal({deep(x) for x in v.o} or {FRESH}, 'index', v.c)
     if v.kind == 'container':
         if v.ek in ('scalar', 'index'):
             return AVal([FRESH], v.ek)
@@ -147,6 +160,7 @@ class FuncInfo:
         self.field_reads = set()
         self.calls = set()
         self.loops = []          # per-source loop info for independence obligations
+        self.local_writes = []
         self.unsupported = []
 
     @property
@@ -349,6 +363,7 @@ class Analyzer:
         self.field_reads = set()
         self.calls = set()
         self.loops = []
+        self.local_writes = []    # (allocation site 'L:name@line', write line, description)
 
     # ---------------------------------------------------------------- driver
     def run(self):
@@ -405,7 +420,7 @@ class Analyzer:
 
     def s_Return(self, s, env):
         if s.value is not None:
-            self.ret = self.ret.join(self.ev(s.value, env))
+            self.ret = self.ret.join(_unlocal(self.ev(s.value, env)))
 
     def s_Assign(self, s, env):
         v = self.ev(s.value, env)
@@ -418,6 +433,11 @@ class Analyzer:
 
     def assign(self, t, v, env, valnode, lineno):
         if isinstance(t, ast.Name):
+            if v.o == {FRESH} and v.kind != 'scalar':
+                # allocation site: a fresh object bound to a local name gets its own identity so
+                # that in-place writes through aliases / views of it can be traced (loop
+                # independence); 'L:' origins never leave the function
+                v = AVal([f'L:{t.id}@{lineno}'], v.kind, v.c, v.ek, v.items)
             env[t.id] = v
         elif isinstance(t, (ast.Tuple, ast.List)):
             elts = valnode.elts if isinstance(valnode, (ast.Tuple, ast.List)) and \
@@ -474,6 +494,8 @@ class Analyzer:
 
     def _qual(self, o):
         o = untag(o)
+        if o.startswith('L:'):
+            return FRESH
         if o.startswith('P:'):
             return f'P:{self.fi.name}:{o[2:]}'
         return o
@@ -736,6 +758,9 @@ class Analyzer:
     def write(self, origins, lineno, desc, via=(), site=None, attr_level=False):
         for o in origins:
             if o in (FRESH, 'G', 'SELF'):
+                continue
+            if o.startswith('L:'):
+                self.local_writes.append((untag(o), lineno, desc))
                 continue
             if '~buf' in o and attr_level:
                 continue      # attribute of a fresh wrapper object (e.g. its own mask)
@@ -1415,6 +1440,7 @@ def analyse_world(world, max_rounds=12):
             fi.effects, fi.ret = a.effects, a.ret
             fi.field_writes, fi.field_reads = a.field_writes, a.field_reads
             fi.calls, fi.loops = a.calls, a.loops
+            fi.local_writes = a.local_writes
             fa_after = _fa_sig(fi.cls)
             if fi.summary_sig() != before or fa_after != fa_before:
                 changed = True
